@@ -52,6 +52,7 @@ def generate(seed, tier):
         "k": r.choice([0, 1, 1, 2]),
         "lr": r.choice([1e-3, 0.1, 1.0]),
         "time": r.random() < 0.4,
+        "call_form": r.choice(["keyword", "keyword", "positional"]),
     }
     n_wit = r.randint(1, 4)
     flav = [r.choice(["class", "class", "lambda"]) for _ in range(n_wit)]
